@@ -1,4 +1,5 @@
 import HC.Proofs.Verify
+import HC.Proofs.LiveRefine
 /-!
 # C13 — replication events announce exactly the state changes that happened
 
@@ -72,5 +73,76 @@ theorem apply_events (c : Core) (p : Proof) (cs : Changeset) (j0 : List SOp) (bu
 theorem refused_events (C : Crypto) (c : Core) (d : Disk) (p : Proof)
     (h : (c.verifyAndApply C d p).result = .ok false) : (c.verifyAndApply C d p).events = [] :=
   (apply_false_noop C c d p h).2.2
+
+/-- the indices a list of events announces as available -/
+def announced (evs : List Event) (i : Nat) : Bool :=
+  evs.any fun e => match e with
+    | .have s l => decide (s ≤ i ∧ i < s + l)
+    | _ => false
+
+theorem maybeFlush_bits (c : Core) (i : Nat) : c.maybeFlush.1.bitfield.get i = c.bitfield.get i := by
+  rw [LiveRefine.maybeFlush_eq]
+  split
+  · simp [Core.flushAll, Bitfield.flush, Bitfield.get]
+  · rfl
+
+/-- **the announced ranges are exactly the blocks that became available (proofs)**: after an accepted proof a block is
+    held iff it was held before or a `have` event of this call announces it — and every announced block is held -/
+theorem apply_announces (C : Crypto) (c : Core) (d : Disk) (p : Proof)
+    (h : (c.verifyAndApply C d p).result = .ok true) (i : Nat) :
+    (c.verifyAndApply C d p).core.bitfield.get i = (c.bitfield.get i || announced (c.verifyAndApply C d p).events i) := by
+  unfold Core.verifyAndApply at h ⊢
+  by_cases hf : p.fork ≠ c.tree.fork
+  · simp [hf] at h
+  · simp only [hf, ite_false] at h ⊢
+    cases hv : c.tree.verifyProof C d.tree p c.publicKey with
+    | error e => simp [hv] at h
+    | ok cs =>
+      simp only [hv] at h ⊢
+      by_cases hc : c.tree.commitable cs = true
+      swap
+      · simp [hc] at h
+      simp only [hc, Bool.not_true, Bool.false_eq_true, ite_false] at h ⊢
+      cases hd : Core.dataStep c d p cs with
+      | error e => simp [hd] at h
+      | ok pr =>
+        obtain ⟨j0, bu⟩ := pr
+        simp only [hd] at h ⊢
+        by_cases he : Core.encodable cs = true
+        swap
+        · simp [he] at h
+        simp only [he, ite_true] at h ⊢
+        unfold Core.applyVerified at h ⊢
+        simp only [] at h ⊢
+        cases hcm : c.tree.commit cs with
+        | error e => simp [hcm, Core.finishApply] at h
+        | ok tr =>
+          simp only [Core.finishApply]
+          rw [maybeFlush_bits]
+          cases bu with
+          | none =>
+            cases p.upgrade <;> simp [Core.appliedEvents, announced]
+          | some u =>
+            simp only [Core.appliedEvents, announced]
+            rw [Bitfield.get_setRange]
+            cases p.upgrade <;> simp <;> exact Bool.or_comm _ _
+
+/-- … and for appends: after a successful append a block is held iff it was held before or the call's `have` event
+    announces it -/
+theorem append_announces (C : Crypto) (c : Core) (seed : Bytes) (batch : List Bytes) (hs : c.secret = some seed) (hne : batch ≠ [])
+    (hok : ∃ o, (c.appendBatch C batch).result = .ok o) (i : Nat) :
+    (c.appendBatch C batch).core.bitfield.get i = (c.bitfield.get i || announced (c.appendBatch C batch).events i) := by
+  obtain ⟨o, hok⟩ := hok
+  have hne' : batch.isEmpty = false := by cases batch with | nil => exact absurd rfl hne | cons a l => rfl
+  unfold Core.appendBatch at hok ⊢
+  simp only [hs, hne', Bool.false_eq_true, ite_false] at hok ⊢
+  cases hcm : c.tree.commit (Tree.hashAndSign C (batch.foldl (Tree.append C) c.tree.changeset) seed) with
+  | error e => simp [hcm] at hok
+  | ok tr =>
+    simp only []
+    rw [maybeFlush_bits]
+    simp only [announced, List.any_cons, List.any_nil, Bool.or_false, Bool.false_or]
+    rw [Bitfield.get_setRange]
+    split <;> simp_all
 
 end HC.C13
